@@ -88,7 +88,9 @@ func crashCheck(run *vf.Run, u gmodel.Universe, s ghState, op gmodel.Op, cs *cra
 	}
 	cs.mu.Unlock()
 	hist := append(append([]gmodel.Op{}, s.hist...), op)
-	for i := 0; i < n; i++ {
+	for ii := 0; ii < 2*n; ii++ {
+		// every crash point twice: as it is, and followed by the client repeating the interrupted request
+		i, retry := ii/2, ii%2 == 1
 		h, f := faultHandle()
 		for _, o := range s.hist {
 			gmodel.ApplyDB(h.db, o)
@@ -115,7 +117,17 @@ func crashCheck(run *vf.Run, u gmodel.Universe, s ghState, op gmodel.Op, cs *cra
 		}
 		db := h.reopen()
 		obs, opan := gmodel.ObserveDB(db, u)
-		rep := map[string]any{"history": histString(hist), "crash_before_write": i, "writes_of_call": n, "ops": hist}
+		rep := map[string]any{"history": histString(hist), "crash_before_write": i, "writes_of_call": n, "ops": hist, "retried": retry}
+		rt := ""
+		if retry {
+			// the natural next event: the client, which got no answer, sends the same request again
+			if _, pan := gmodel.ApplyDB(db, op); pan != "" {
+				run.Report(vf.Violation{Sig: "crash|" + op.Kind + "|after-retry|panic", Detail: fmt.Sprintf("history [%s], crash before write %d/%d of the last call, reopen, the same call again: panic: %s", histString(hist), i, n, pan), Replay: rep})
+				continue
+			}
+			obs, opan = gmodel.ObserveDB(db, u)
+			rt = "after-retry|"
+		}
 		cs.mu.Lock()
 		cs.runs++
 		cs.points++
@@ -131,13 +143,19 @@ func crashCheck(run *vf.Run, u gmodel.Universe, s ghState, op gmodel.Op, cs *cra
 		rec := reconstruct(obs, u)
 		consistent := true
 		for _, m := range untainted(gmodel.Diff(rec.Observe(u), obs), s.taint) {
+			if retry && listDirection(m.Want, m.Got) == "extra" {
+				// the retried call has completed: C03's listed defects (label index never shrinks, a re-added edge
+				// keeps its old keys) leave EXTRA entries behind a completed call and are charged there, not here;
+				// the retry variant charges entries that are missing or different
+				continue
+			}
 			consistent = false
-			run.Report(vf.Violation{Sig: fmt.Sprintf("crash|%s|inconsistent|%s|%s", op.Kind, m.Comp, listDirection(m.Want, m.Got)),
-				Detail: fmt.Sprintf("history [%s], crash before write %d/%d of the last call, reopen: %s %s is %s but the surviving elements imply %s", histString(hist), i, n, m.Comp, m.Item, m.Got, m.Want),
+			run.Report(vf.Violation{Sig: fmt.Sprintf("crash|%s|%sinconsistent|%s|%s", op.Kind, rt, m.Comp, listDirection(m.Want, m.Got)),
+				Detail: fmt.Sprintf("history [%s], crash before write %d/%d of the last call, reopen%s: %s %s is %s but the surviving elements imply %s", histString(hist), i, n, map[bool]string{true: ", the same call again", false: ""}[retry], m.Comp, m.Item, m.Got, m.Want),
 				Replay: rep})
 		}
 		// (2)+(3) per element: before or after state
-		if !(s.taint["lookup-v"] || s.taint["lookup-e"]) {
+		if !retry && !(s.taint["lookup-v"] || s.taint["lookup-e"]) {
 			for _, gn := range u.Graphs {
 				for _, kind := range []string{"lookup-v", "lookup-e"} {
 					ids := u.VIDs
@@ -200,8 +218,11 @@ func crashCheck(run *vf.Run, u gmodel.Universe, s ghState, op gmodel.Op, cs *cra
 				run.Report(vf.Violation{Sig: "crash|" + op.Kind + "|post-crash-write|observe-panic", Detail: fmt.Sprintf("history [%s], crash before write %d/%d, reopen, new vertex p and edge pe: observation panicked: %s", histString(hist), i, n, opan2), Replay: rep})
 			} else {
 				for _, m := range untainted(gmodel.Diff(rec2.Observe(u2), obs2), s.taint) {
-					run.Report(vf.Violation{Sig: fmt.Sprintf("crash|%s|post-crash-write|%s|%s", op.Kind, m.Comp, listDirection(m.Want, m.Got)),
-						Detail: fmt.Sprintf("history [%s], crash before write %d/%d of the last call, reopen, then a new vertex p and edge pe in every surviving graph: %s %s is %s but the elements imply %s", histString(hist), i, n, m.Comp, m.Item, m.Got, m.Want),
+					if retry && listDirection(m.Want, m.Got) == "extra" {
+						continue
+					}
+					run.Report(vf.Violation{Sig: fmt.Sprintf("crash|%s|%spost-crash-write|%s|%s", op.Kind, rt, m.Comp, listDirection(m.Want, m.Got)),
+						Detail: fmt.Sprintf("history [%s], crash before write %d/%d of the last call, reopen (retried=%v), then a new vertex p and edge pe in every surviving graph: %s %s is %s but the elements imply %s", histString(hist), i, n, retry, m.Comp, m.Item, m.Got, m.Want),
 						Replay: rep})
 				}
 			}
